@@ -2,7 +2,9 @@
 
     sx   = read(text)                 # S-expression: nested lists of Atom
     node = parse(sx)                  # Node tree for the *supported* node kinds; anything else -> OutsideGrammar
-    walk_scopes(node, Env.top(...))   # binder-identity resolution of every Ref (engine binding rules)
+    child_env(node, i, env, val)      # environment of child i (engine binding rules: eval / agg / scan)
+    resolve_refs(node, env, [])       # what every Ref of a subtree resolves to
+    parse_type('Array[Struct{a:Int32}]')   # type strings -> hashable descriptors
 
 The grammar table (HEADS / special parsers) is written from the emitters in hail/ir/{ir,table_ir,matrix_ir}.py
 (`head_str`, `render_head`, `render_children`); the *binding* table (child_env) is written from the engine's
@@ -64,6 +66,12 @@ def _quoted(text, i, q):
             if d == 'u':
                 out.append(chr(int(text[j + 2:j + 6], 16)))
                 j += 6
+            elif d == 'x':        # Python's unicode_escape forms, emitted by escape_parsable for field names (see C31)
+                out.append(chr(int(text[j + 2:j + 4], 16)))
+                j += 4
+            elif d == 'U':
+                out.append(chr(int(text[j + 2:j + 10], 16)))
+                j += 10
             elif d in _ESC:
                 out.append(_ESC[d])
                 j += 2
@@ -198,7 +206,7 @@ HEADS = {
     # table IR
     'TableRange': 2, 'TableMapRows': 0, 'TableMapGlobals': 0, 'TableFilter': 0, 'TableKeyBy': 3,
     'TableAggregateByKey': 0, 'TableKeyByAndAggregate': 2, 'TableJoin': 2, 'TableLeftJoinRightDistinct': 1,
-    'TableDistinct': 0, 'TableOrderBy': 1, 'TableHead': 1, 'TableRename': 2, 'MatrixEntriesTable': 0,
+    'TableDistinct': 0, 'TableOrderBy': 1, 'TableHead': 1, 'TableRename': 4, 'MatrixEntriesTable': 0,
     'MatrixRowsTable': 0, 'MatrixColsTable': 0, 'TableExplode': 1, 'TableUnion': 0,
     # matrix IR
     'MatrixMapRows': 0, 'MatrixMapCols': 1, 'MatrixMapEntries': 0, 'MatrixMapGlobals': 0, 'MatrixFilterRows': 0,
@@ -458,3 +466,124 @@ def resolve_refs(node, env: Env, out, val=_binder_id):
             continue
         resolve_refs(c, ce, out, val)
     return out
+
+
+# ---------------------------------------------------------------------------------------------------------------
+# Types in the text (HailType._parsable_string syntax) -> hashable descriptors
+#   prims: 'int32' 'int64' 'float32' 'float64' 'bool' 'str' 'call' 'void' 'rngstate'
+#   ('array', e) ('set', e) ('stream', e) ('interval', p) ('dict', k, v) ('locus', rg) ('ndarray', e, n)
+#   ('struct', ((name, t), ...)) ('tuple', (t, ...))
+# ---------------------------------------------------------------------------------------------------------------
+
+_PRIM_NAMES = {'Int32': 'int32', 'Int64': 'int64', 'Float32': 'float32', 'Float64': 'float64', 'Boolean': 'bool',
+               'String': 'str', 'Call': 'call', 'Void': 'void', 'RNGState': 'rngstate'}
+
+
+class TypeSyntaxError(Exception):
+    pass
+
+
+def parse_type(text):
+    t, i = _ptype(str(text), 0)
+    if i != len(text):
+        raise TypeSyntaxError(f'trailing text in type {text!r} at {i}')
+    return t
+
+
+def _pname(s, i):
+    if i < len(s) and s[i] == '`':
+        return _quoted(s, i, '`')
+    j = i
+    while j < len(s) and (s[j].isalnum() or s[j] == '_'):
+        j += 1
+    if j == i:
+        raise TypeSyntaxError(f'name expected at {i} in {s!r}')
+    return s[i:j], j
+
+
+def _expect(s, i, c):
+    if s[i:i + len(c)] != c:
+        raise TypeSyntaxError(f'{c!r} expected at {i} in {s!r}')
+    return i + len(c)
+
+
+def _ptype(s, i):
+    j = i
+    while j < len(s) and s[j].isalnum():
+        j += 1
+    head = s[i:j]
+    if head in _PRIM_NAMES:
+        return _PRIM_NAMES[head], j
+    if head in ('Array', 'Set', 'Stream', 'Interval'):
+        j = _expect(s, j, '[')
+        e, j = _ptype(s, j)
+        j = _expect(s, j, ']')
+        return (head.lower(), e), j
+    if head == 'Dict':
+        j = _expect(s, j, '[')
+        k, j = _ptype(s, j)
+        j = _expect(s, j, ',')
+        v, j = _ptype(s, j)
+        j = _expect(s, j, ']')
+        return ('dict', k, v), j
+    if head == 'NDArray':
+        j = _expect(s, j, '[')
+        e, j = _ptype(s, j)
+        j = _expect(s, j, ',')
+        k = j
+        while k < len(s) and s[k].isdigit():
+            k += 1
+        n = int(s[j:k])
+        j = _expect(s, k, ']')
+        return ('ndarray', e, n), j
+    if head == 'Locus':
+        j = _expect(s, j, '(')
+        name, j = _pname(s, j)
+        j = _expect(s, j, ')')
+        return ('locus', name), j
+    if head == 'Tuple':
+        j = _expect(s, j, '[')
+        ts = []
+        if s[j:j + 1] != ']':
+            while True:
+                t, j = _ptype(s, j)
+                ts.append(t)
+                if s[j:j + 1] == ',':
+                    j += 1
+                    continue
+                break
+        j = _expect(s, j, ']')
+        return ('tuple', tuple(ts)), j
+    if head == 'Struct':
+        j = _expect(s, j, '{')
+        fs = []
+        if s[j:j + 1] != '}':
+            while True:
+                name, j = _pname(s, j)
+                j = _expect(s, j, ':')
+                t, j = _ptype(s, j)
+                fs.append((name, t))
+                if s[j:j + 1] == ',':
+                    j += 1
+                    continue
+                break
+        j = _expect(s, j, '}')
+        return ('struct', tuple(fs)), j
+    raise TypeSyntaxError(f'unknown type head {head!r} at {i} in {s!r}')
+
+
+def show_type(t):
+    if isinstance(t, str):
+        return t
+    k = t[0]
+    if k == 'struct':
+        return 'struct{' + ', '.join(f'{n!r}: {show_type(x)}' for n, x in t[1]) + '}'
+    if k == 'tuple':
+        return 'tuple(' + ', '.join(show_type(x) for x in t[1]) + ')'
+    if k == 'dict':
+        return f'dict<{show_type(t[1])}, {show_type(t[2])}>'
+    if k == 'locus':
+        return f'locus<{t[1]}>'
+    if k == 'ndarray':
+        return f'ndarray<{show_type(t[1])}, {t[2]}>'
+    return f'{k}<{show_type(t[1])}>'
